@@ -20,6 +20,11 @@ ManifestClauses(r) ==
              ph == HasPhantomBatch(r.sizes, r.bound)
          IN  (IF o.prepared_sizes = P /\ o.manifest_cards = Total(r.sizes) /\ o.phantoms = Shortfall(r.sizes, r.bound)
                  /\ o.cum = [k \in 1..Len(P) |-> Cum(P, k)] THEN {} ELSE {"prep"})
+             \* prepared again, the prepared manifest is an input like any other: its phantom batch counts as listed cards
+             \cup (IF o.again.done => (/\ o.again.sizes = Prepared(P, o.again.bound)
+                                       /\ o.again.manifest_cards = Total(P)
+                                       /\ o.again.phantoms = Shortfall(P, o.again.bound))
+                   THEN {} ELSE {"prep:again"})
              \cup (IF Len(o.cards) = Len(r.sample) /\ \A k \in 1..Len(r.sample) :
                         LET pl == Lookup(r.vendor, P, r.sample[k]) IN o.cards[k].batch = pl.batch /\ o.cards[k].pos = pl.pos
                    THEN {} ELSE {"lookup"})
@@ -40,6 +45,12 @@ CvrClauses(r) ==
         want == [k \in 1..Len(r.sample) |-> r.ids[r.sample[k] + 1]]
     IN  (IF o.cvr_sample_ids = want THEN {} ELSE {"cvr_sample"})
         \cup (IF o.order_ids = want THEN {} ELSE {"selection_order"})
+        \* the card returned for a real record carries the locator of the manifest row of ITS batch (a phantom: none)
+        \cup (IF Len(o.locs) = Len(r.sample) /\ \A k \in 1..Len(r.sample) :
+                   LET j == r.sample[k] + 1 IN
+                   IF r.phantom[j] THEN o.locs[k] = ""
+                   ELSE \E q \in 1..Len(r.rows) : r.rows[q].batch = r.batch_of[j] /\ r.rows[q].loc = o.locs[k]
+              THEN {} ELSE {"locator"})
         \cup (IF o.phantom_mvr_ids = SelectSeq(want, LAMBDA id : \E j \in 1..Len(r.ids) : r.ids[j] = id /\ r.phantom[j]) /\ o.phantom_mvrs_ok
               THEN {} ELSE {"phantom_mvrs"})
 
